@@ -367,7 +367,11 @@ def c08f(ctx):
     RAISING = ('os.path.getmtime', 'getmtime', 'os.unlink', 'os.remove', 'os.stat', 'os.lstat', 'os.path.getsize', 'os.path.getctime', 'os.utime')
     n = 0
     for lp in loops:
-        for x in sorted([c for c in ast.walk(lp) if is_call(c, *RAISING)], key=order_key):
+        def raising(c):
+            # os.<call>(path) or the same as a method of a directory entry / path object (entry.stat(), p.unlink())
+            return is_call(c, *RAISING) or (isinstance(c, ast.Call) and isinstance(c.func, ast.Attribute) and
+                                            c.func.attr in ('stat', 'lstat', 'unlink', 'getmtime'))
+        for x in sorted([c for c in ast.walk(lp) if raising(c)], key=order_key):
             n += 1
             ok = False
             t = enclosing(x, ast.Try)
@@ -410,3 +414,54 @@ def c08g(ctx):
         ctx.check(unique, 'write_atomic:temp-name-unique-per-call', 'the temporary file name has a random / per-call unique component', fn, x,
                   fail='the temporary name %s is the same for all threads of the process: two concurrent stores of the same file collide '
                        '(EEXIST, then the error path removes the other writer\'s file)' % unparse(form)[:80])
+
+
+LEVEL_TABLES = [('mapproxy/cache/mbtiles.py', 'MBTilesLevelCache', '_mbtiles', '_mbtiles_lock'),
+                ('mapproxy/cache/geopackage.py', 'GeopackageLevelCache', '_geopackage', '_geopackage_lock')]
+
+
+@rule('C08.h', floor=4)
+def c08h(ctx):
+    """requests for different (meta) tiles do not break each other: the table of per-level databases of a level cache is shared by all
+    request threads.  It grows (first request for a level) under the table lock; every walk over the table -- the clean-up that
+    TileManager.session() runs at the end of each request -- holds the same lock, otherwise a concurrent insert raises "dictionary
+    changed size during iteration" in a request that has nothing to do with that level.  (Single key look-ups are atomic and stay
+    outside, double-checked under the lock.)"""
+    for rel, cname, table_, lock in LEVEL_TABLES:
+        cls = ctx.repo.cls('%s:%s' % (rel, cname))
+        tname, lname = 'self.' + table_, 'self.' + lock
+        n = 0
+        for st in cls.node.body:
+            if not isinstance(st, ast.FunctionDef) or st.name == '__init__':
+                continue
+            fn = ctx.fn('%s:%s.%s' % (rel, cname, st.name))
+
+            def locked(x):
+                w = enclosing(x, ast.With)
+                while w is not None:
+                    if any(unparse(it.context_expr) == lname for it in w.items):
+                        return True
+                    w = enclosing(w, ast.With)
+                return False
+            for x in fn.walk():
+                walk = None
+                if isinstance(x, (ast.For, ast.comprehension)) and contains(x.iter, lambda y: isinstance(y, ast.Attribute) and unparse(y) == tname):
+                    walk = 'iteration over %s' % unparse(x.iter)
+                elif isinstance(x, ast.Call) and isinstance(x.func, ast.Attribute) and unparse(x.func.value) == tname and \
+                        x.func.attr in ('clear', 'pop', 'popitem', 'update', 'setdefault'):
+                    walk = '%s.%s()' % (tname, x.func.attr)
+                elif isinstance(x, ast.Call) and isinstance(x.func, ast.Name) and x.func.id in ('list', 'sorted', 'tuple', 'len', 'any', 'all', 'sum') and \
+                        x.args and contains(x.args[0], lambda y: isinstance(y, ast.Attribute) and unparse(y) == tname) and x.func.id != 'len':
+                    walk = '%s(%s)' % (x.func.id, unparse(x.args[0]))
+                elif isinstance(x, ast.Subscript) and isinstance(x.ctx, (ast.Store, ast.Del)) and unparse(x.value) == tname:
+                    walk = 'assignment to %s[..]' % tname
+                if walk is None:
+                    continue
+                n += 1
+                node = x if not isinstance(x, ast.comprehension) else x.iter
+                k = sum(1 for o in ctx.obs if o.construct.startswith('%s.%s:table-access' % (cname, st.name)))
+                ctx.check(locked(node), '%s.%s:table-access%d-under-lock' % (cname, st.name, k), '%s holds %s' % (walk, lname), fn, node,
+                          fail='%s.%s: %s without %s: another request thread that opens a new level at that moment makes this one fail' % (
+                              cname, st.name, walk, lname))
+        if n < 2:
+            raise Undecided('%s: fewer than 2 accesses to the level table found' % cname)
